@@ -427,6 +427,78 @@ fn sw_packet(a: &mut Acc, b: &[u8]) {
     }
 }
 
+/// single-layer doors against the layers of the whole-packet result they are part of (same bytes, same answer)
+fn sw_layer_doors(a: &mut Acc, b: &[u8]) {
+    // Ethernet II with a frame check sequence: the last four bytes are the FCS, everything between header and FCS the payload
+    if let Ok(e) = Ethernet2Slice::from_slice_with_crc32_fcs(b) {
+        let n = b.len();
+        a.same("Ethernet2Slice::from_slice_with_crc32_fcs", (a.ctx.rg(e.payload_slice()), e.fcs(), a.ctx.rg(e.header_slice()), e.ether_type().0),
+               ((14, n as i64 - 18), Some([b[n - 4], b[n - 3], b[n - 2], b[n - 1]]), (0, 14), u16::from_be_bytes([b[12], b[13]])));
+    } else {
+        a.same("Ethernet2Slice::from_slice_with_crc32_fcs.rejects", b.len() < 18, true);
+    }
+    if let Ok(e) = Ethernet2Slice::from_slice_without_fcs(b) {
+        a.same("Ethernet2Slice::from_slice_without_fcs", (a.ctx.rg(e.payload_slice()), e.fcs()), ((14, b.len() as i64 - 14), None));
+    }
+    if let Ok(x) = SlicedPacket::from_ethernet(b) {
+        let mut prev = x.link.as_ref().and_then(|l| l.ether_payload());
+        for e in &x.link_exts {
+            if let Some(p) = &prev {
+                match e {
+                    LinkExtSlice::Vlan(v) => a.same("SingleVlanSlice::from_slice", SingleVlanSlice::from_slice(p.payload).ok().as_ref().map(|y| y.slice()), Some(v.slice())),
+                    LinkExtSlice::Macsec(m) => a.same("MacsecSlice::from_slice", MacsecSlice::from_slice(p.payload).ok().map(|y| (a.ctx.rg(y.header.slice()), format!("{:?}", y.payload))),
+                                                      Some((a.ctx.rg(m.header.slice()), format!("{:?}", m.payload)))),
+                }
+            }
+            prev = e.ether_payload();
+        }
+        if let (Some(p), Some(n)) = (&prev, &x.net) {
+            match n {
+                NetSlice::Ipv4(i) => a.same("Ipv4Slice::from_slice", Ipv4Slice::from_slice(p.payload).ok().as_ref(), Some(i)),
+                NetSlice::Ipv6(i) => a.same("Ipv6Slice::from_slice", Ipv6Slice::from_slice(p.payload).ok().as_ref(), Some(i)),
+                NetSlice::Arp(r) => a.same("ArpPacketSlice::from_slice", ArpPacketSlice::from_slice(p.payload).ok().as_ref(), Some(r)),
+            }
+        }
+        if let (Some(ip), Some(t)) = (x.ip_payload(), &x.transport) {
+            match t {
+                TransportSlice::Udp(u) => a.same("UdpSlice::from_slice", UdpSlice::from_slice(ip.payload).ok().as_ref(), Some(u)),
+                TransportSlice::Tcp(u) => a.same("TcpSlice::from_slice", TcpSlice::from_slice(ip.payload).ok().as_ref(), Some(u)),
+                TransportSlice::Icmpv4(u) => a.same("Icmpv4Slice::from_slice", Icmpv4Slice::from_slice(ip.payload).ok().as_ref(), Some(u)),
+                TransportSlice::Icmpv6(u) => a.same("Icmpv6Slice::from_slice", Icmpv6Slice::from_slice(ip.payload).ok().as_ref(), Some(u)),
+            }
+        }
+    }
+    if let Ok(x) = LaxSlicedPacket::from_ethernet(b) {
+        let mut prev = x.link.as_ref().and_then(|l| l.ether_payload()).map(|p| p.payload);
+        for e in &x.link_exts {
+            if let Some(p) = prev {
+                if let LaxLinkExtSlice::Macsec(m) = e {
+                    a.same("LaxMacsecSlice::from_slice", LaxMacsecSlice::from_slice(p).ok().map(|y| (a.ctx.rg(y.header.slice()), format!("{:?}", y.payload))),
+                           Some((a.ctx.rg(m.header.slice()), format!("{:?}", m.payload))));
+                }
+            }
+            prev = e.payload().map(|p| p.payload);
+        }
+        if let (Some(ip), Some(TransportSlice::Udp(u))) = (x.ip_payload(), &x.transport) {
+            a.same("UdpSlice::from_slice_lax", UdpSlice::from_slice_lax(ip.payload).ok().as_ref(), Some(u));
+        }
+        if let (Some(p), Some(n)) = (prev, &x.net) {
+            match n {
+                LaxNetSlice::Ipv4(i) => a.same("LaxIpv4Slice::from_slice", LaxIpv4Slice::from_slice(p).ok().map(|y| y.0).as_ref(), Some(i)),
+                LaxNetSlice::Ipv6(i) => {
+                    a.same("LaxIpv6Slice::from_slice", LaxIpv6Slice::from_slice(p).ok().map(|y| y.0).as_ref(), Some(i));
+                    // the extension chain on its own: same headers, same ip number behind them
+                    let after = &p[40.min(p.len())..];
+                    let lim = if i.header().payload_length() == 0 || usize::from(i.header().payload_length()) > after.len() { after.len() } else { usize::from(i.header().payload_length()) };
+                    let (e2, n2, _, _) = Ipv6ExtensionsSlice::from_slice_lax(i.header().next_header(), &after[..lim]);
+                    a.same("Ipv6ExtensionsSlice::from_slice_lax", (e2.slice(), n2), (i.extensions().slice(), i.payload().ip_number));
+                }
+                _ => {}
+            }
+        }
+    }
+}
+
 /// deprecated aliases and helper predicates
 #[allow(deprecated)]
 fn sw_aliases(a: &mut Acc, b: &[u8]) {
@@ -476,7 +548,7 @@ pub fn sweep(ctx: &Ctx, which: &str, b: &[u8]) -> (i64, u64, Vec<String>) {
     match which {
         "link" => sw_link(&mut a, b),
         "net" => sw_net(&mut a, b),
-        "packet" => { sw_packet(&mut a, b); sw_aliases(&mut a, b); }
+        "packet" => { sw_packet(&mut a, b); sw_aliases(&mut a, b); sw_layer_doors(&mut a, b); }
         _ => sw_transport(&mut a, b),
     }
     a.finish()
